@@ -174,6 +174,7 @@ CASES = {
     'arr_minus_scalar_b': lambda np, a, b: np.ma.getdata(a) - np.ma.getdata(b).max(), 'normalize': lambda np, a, b: (np.ma.getdata(a) - np.ma.getdata(a).min()) * (0 - 1) / (np.ma.getdata(a).min() - np.ma.getdata(a).max() - 1) + 0,
     'ma.average_axis0': lambda np, a, b: np.ma.average(np.ma.stack([a, b]), axis=0, weights=[2, 0.5]), 'ma.average_all': lambda np, a, b: np.ma.average(a, weights=np.ma.getdata(b) * 0 + 1.5),
     'mask_ior': lambda np, a, b: _maskior(np, a, b),
+    'ma.divide': lambda np, a, b: np.ma.divide(a, b), 'ma.divide_scalar': lambda np, a, b: np.ma.divide(a, 0), 'ma.divide_data': lambda np, a, b: np.ma.divide(np.ma.getdata(a), np.ma.getdata(b)),
     'can_cast': lambda np, a, b: bool(np.can_cast(a.dtype, b.dtype, 'safe')),
     'count_nonzero': lambda np, a, b: np.count_nonzero(np.ma.getdata(a)), 'power3': lambda np, a, b: np.power(np.ma.getdata(a), 3),
 }
